@@ -6,6 +6,7 @@ CONSTANTS
   AllowEmptyBd = TRUE
   WithReps = FALSE
   Mode = "insert"
+  WithHist = FALSE
 VIEW View
 INVARIANT InvWellFormed
 INVARIANT InvPartition
